@@ -13,7 +13,7 @@ P = {
     'C01': dict(
         text='Proof: Lexer.get_tokens (str input) verified against the loop invariant "yielded values concatenate to '
              'text[:k]" for every str and every iteration (no bound), all yields non-empty, fallback yields one Error '
-             'character, skip count never negative (consume precondition), is_keyword returns the lexeme unchanged; '
+             'character, skip count never negative (consume precondition), is_keyword returns the lexeme unchanged; the scanner keeps no state on the (shared) lexer object (frame obligation), so interleaved streams are independent; '
              'per-rule data obligations (compiles, minimum width >= 1, well-typed action). A bounded enumeration '
              '(strings <= 3 over a class alphabet, interleaved streams) runs beside it and is not counted as proof.',
         note='Trusted: CPython re engine through the match contract (DESIGN 4.4), islice/deque/enumerate models, the '
